@@ -221,8 +221,16 @@ BodyVal(nd, o, args) ==
 NodeOuts(nd, args) == [j \in 1..Len(nd.outputs) |->
                          <<nd.outputs[j], IF j <= nd.ndata THEN BodyVal(nd, nd.outputs[j], args) ELSE Sent>>]
 
-\* the scripted raw decision of the idx-th invocation (the last entry repeats)
-RawDecision(nd, idx) == nd.script[Min2(idx, Len(nd.script))]
+\* the scripted raw decision of the idx-th invocation (the last entry repeats); inside map items
+\* (where invocation indices depend on the schedule) decisions and failures are keyed by ARGUMENT
+\* values instead: dec_args = <<value, raw decision>> pairs, fail_args = values
+ArgVals(args) == {args[k][3] : k \in 1..Len(args)}
+RawDecision(nd, idx, args) ==
+  IF \E i \in 1..Len(nd.dec_args) : nd.dec_args[i][1] \in ArgVals(args)
+  THEN nd.dec_args[CHOOSE i \in 1..Len(nd.dec_args) :
+           nd.dec_args[i][1] \in ArgVals(args) /\ \A j \in 1..(i-1) : nd.dec_args[j][1] \notin ArgVals(args)][2]
+  ELSE nd.script[Min2(idx, Len(nd.script))]
+Fails(nd, idx, args) == idx \in Names(nd.fail_at) \/ ArgVals(args) \cap Names(nd.fail_args) # {}
 \* runners/_shared/gate_execution.py: fallback for None, [] / None mean "no target"
 Decide(nd, raw) ==
   IF raw = <<None>> THEN (IF nd.kind = "route" /\ ~nd.multi /\ nd.fallback # None
@@ -244,13 +252,42 @@ Path(prefix, n) == IF prefix = "" THEN n ELSE prefix \o "/" \o n
 NoErr   == [path |-> None, kind |-> None]
 NoPause == [path |-> None, key |-> None, value |-> None]
 
-RECURSIVE RunProg(_, _, _, _, _), Loop(_, _, _, _, _), StepFold(_, _, _, _, _, _, _), ExecNode(_, _, _, _, _, _, _)
+RECURSIVE RunProg(_, _, _, _, _), Loop(_, _, _, _, _), StepFold(_, _, _, _, _, _, _), ExecNode(_, _, _, _, _, _, _),
+          MapItems(_, _, _, _, _, _, _, _)
 
 \* The "world" w = [ctr, calls, done] is threaded through every (nested) run:
 \*   ctr    invocation counters per node path (scripts are indexed by them)
 \*   calls  log of body invocations (starts), in the order the sync runner produces them
 \*   done   log of successful node completions [path, frame, node, step]
-World0 == [ctr |-> EmptyMap, calls |-> <<>>, done |-> <<>>]
+\*   lists  list values: canonical text -> sequence of item texts (values are strings; a mapped
+\*          parameter needs the items of the list it receives)
+World0 == [ctr |-> EmptyMap, calls |-> <<>>, done |-> <<>>, lists |-> EmptyMap]
+
+(***************************************************************************)
+(* map_over (helpers.py generate_map_inputs, template_*.py map,            *)
+(* collect_as_lists).  Combos(mode, lens) = index tuples of the input      *)
+(* combinations, in input order: zip = position-wise, product = cartesian  *)
+(* in row-major order (first mapped parameter varies slowest).             *)
+(***************************************************************************)
+RECURSIVE ProductIdx(_, _)
+ProductIdx(lens, k) ==            \* all index tuples over lens[k..], row-major
+  IF k > Len(lens) THEN << <<>> >>
+  ELSE LET rest == ProductIdx(lens, k + 1)
+       IN [n \in 1..(lens[k] * Len(rest)) |->
+             <<((n - 1) \div Len(rest)) + 1>> \o rest[((n - 1) % Len(rest)) + 1]]
+ZipIdx(lens) == IF lens = <<>> THEN << <<>> >>
+                ELSE [n \in 1..lens[1] |-> [j \in 1..Len(lens) |-> n]]
+ZipOK(lens) == \A i, j \in 1..Len(lens) : lens[i] = lens[j]
+Combos(mode, lens) == IF mode = "zip" THEN ZipIdx(lens) ELSE ProductIdx(lens, 1)
+
+\* the item runs of a map, in input order.  sync + raise: stops at the first failing item
+\* (template_sync.map raises inside the loop); async: every item runs (gather).
+MapItems(nd, path, inputs, c, w, acc, mode, eh) ==
+  IF c > Len(inputs) THEN [results |-> acc, w |-> w]
+  ELSE LET r == RunProg(nd.sub, path \o "[" \o ToString(c - 1) \o "]", inputs[c], w, mode)
+       IN IF r.status # "completed" /\ eh = "raise" /\ mode = "sync"
+          THEN [results |-> Append(acc, r), w |-> r.w]
+          ELSE MapItems(nd, path, inputs, c + 1, r.w, Append(acc, r), mode, eh)
 
 \* ex = [status |-> "ok"|"fail"|"pause", outs, dec, w, err, pause]
 ExecNode(pr, prefix, nd, args, st, step, mode) ==
@@ -258,12 +295,41 @@ ExecNode(pr, prefix, nd, args, st, step, mode) ==
       idx  == Get(st.w.ctr, path, 0) + 1
       call == [path |-> path, frame |-> prefix, node |-> nd.name, step |-> step,
                idx |-> idx, args |-> CallArgs(args), kind |-> nd.kind,
-               dec |-> IF IsGate(nd) /\ idx \notin Names(nd.fail_at)
-                       THEN Decide(nd, RawDecision(nd, idx)) ELSE NoDec]
+               dec |-> IF IsGate(nd) /\ ~Fails(nd, idx, args)
+                       THEN Decide(nd, RawDecision(nd, idx, args)) ELSE NoDec]
       w1   == [st.w EXCEPT !.ctr = Put(st.w.ctr, path, idx), !.calls = st.w.calls \o <<call>>]
       base == [status |-> "ok", outs |-> <<>>, dec |-> NoDec, w |-> w1, err |-> NoErr, pause |-> NoPause]
   IN
-  IF IsGraph(nd) THEN
+  IF IsGraph(nd) /\ nd.map_over # <<>> THEN
+     \* a mapping node: one child run per input combination, outputs collected as lists
+     LET mo == nd.map_over
+         argOf(p) == args[CHOOSE i \in 1..Len(args) : args[i][1] = p][3]
+         known == \A j \in 1..Len(mo) : argOf(mo[j]) \in DOMAIN st.w.lists
+         items(j) == st.w.lists[argOf(mo[j])]
+         lens == [j \in 1..Len(mo) |-> Len(items(j))]
+     IN IF ~known \/ (nd.map_mode = "zip" /\ ~ZipOK(lens))
+        THEN [base EXCEPT !.status = "fail", !.err = [path |-> path, kind |-> "map-input"]]
+        ELSE
+        LET combos == Combos(nd.map_mode, lens)
+            bcast == SelectSeq(args, LAMBDA a : a[1] \notin Names(mo))
+            inputs(c) == [i \in 1..Len(bcast) |-> <<InnerName(nd, bcast[i][1]), bcast[i][3]>>]
+                         \o [j \in 1..Len(mo) |-> <<InnerName(nd, mo[j]), items(j)[combos[c][j]]>>]
+            mr == MapItems(nd, path, [c \in 1..Len(combos) |-> inputs(c)], 1, w1, <<>>, mode, nd.map_eh)
+            failedAt == {c \in 1..Len(mr.results) : mr.results[c].status # "completed"}
+        IN IF failedAt # {} /\ nd.map_eh = "raise"
+           THEN [base EXCEPT !.status = "fail", !.w = mr.w,
+                             !.err = mr.results[CHOOSE c \in failedAt : \A d \in failedAt : c <= d].err]
+           ELSE
+           LET col(pair) == [c \in 1..Len(mr.results) |->
+                    LET rv == FilterOut(nd.sub, mr.results[c].vals, Unset)
+                    IN IF mr.results[c].status = "completed" /\ pair[1] \in DOMAIN rv THEN rv[pair[1]] ELSE None]
+               outs == [i \in 1..Len(nd.outmap) |-> <<nd.outmap[i][2], ListText(col(nd.outmap[i]))>>]
+               w2 == [mr.w EXCEPT !.lists = [t \in (DOMAIN mr.w.lists) \cup {outs[i][2] : i \in 1..Len(outs)} |->
+                         IF \E i \in 1..Len(outs) : outs[i][2] = t
+                         THEN col(nd.outmap[CHOOSE i \in 1..Len(outs) : outs[i][2] = t])
+                         ELSE mr.w.lists[t]]]
+           IN [base EXCEPT !.outs = outs, !.w = w2]
+  ELSE IF IsGraph(nd) THEN
      LET inner == [i \in 1..Len(args) |-> <<InnerName(nd, args[i][1]), args[i][3]>>]
          r == RunProg(nd.sub, path, inner, w1, mode)
      IN IF r.status = "completed" THEN
@@ -279,7 +345,7 @@ ExecNode(pr, prefix, nd, args, st, step, mode) ==
      [base EXCEPT !.outs = [j \in 1..Len(nd.outputs) |->
                              <<nd.outputs[j], IF j <= nd.ndata THEN st.vals[nd.outputs[j]] ELSE Sent>>],
                   !.w = st.w]
-  ELSE IF idx \in Names(nd.fail_at) THEN
+  ELSE IF Fails(nd, idx, args) THEN
      [base EXCEPT !.status = "fail", !.err = [path |-> path, kind |-> "body"]]
   ELSE IF IsIntr(nd) THEN
      IF idx \in Names(nd.pause_at)
@@ -289,7 +355,7 @@ ExecNode(pr, prefix, nd, args, st, step, mode) ==
      ELSE [base EXCEPT !.outs = [j \in 1..Len(nd.outputs) |->
                              <<nd.outputs[j], IF j <= nd.ndata THEN "ans." \o nd.name \o "." \o nd.outputs[j] ELSE Sent>>]]
   ELSE IF IsGate(nd) THEN
-     [base EXCEPT !.outs = NodeOuts(nd, args), !.dec = Decide(nd, RawDecision(nd, idx))]
+     [base EXCEPT !.outs = NodeOuts(nd, args), !.dec = Decide(nd, RawDecision(nd, idx, args))]
   ELSE [base EXCEPT !.outs = NodeOuts(nd, args)]
 
 \* acc = [st, first, err, pause]; snap = state at the start of the step.
